@@ -60,3 +60,27 @@ package cmap
 //@ assume func (ss Table) Get(key Key) (sub Subtable, err error)
 //@   ensures !has(ss, key) ==> err != nil
 //@   modifies nothing
+
+// Format 4 encoding: the idRangeOffset of a segment that uses glyphIdArray must
+// address its values by the formula of the specification,
+//   glyphIdArray[idRangeOffset[i]/2 + (c - startCode[i]) - (segCount - i)],
+// i.e. at every moment the value for code c is appended at exactly that index.
+//@ func (cmap Format4) Encode(language uint16) (res []byte)   props: C09 C01
+//@   may_panic
+//@   opt assume_make=1
+//@   modifies nothing
+//@   loop 0
+//@     invariant len(StartCode) == iter && len(EndCode) == iter && len(IDDelta) == iter && len(IDRangeOffsets) == iter && len(segments) <= 65536
+//@     invariant (isnil(StartCode) || fresh(StartCode)) && (isnil(EndCode) || fresh(EndCode)) && (isnil(IDDelta) || fresh(IDDelta)) && (isnil(IDRangeOffsets) || fresh(IDRangeOffsets)) && (isnil(GlyphIDArray) || fresh(GlyphIDArray))
+//@     invariant forall k int :: 0 <= k && k < len(segments) ==> segments[k] != nil
+//@     invariant isnil(GlyphIDArray) || isnil(IDRangeOffsets) || ref(IDRangeOffsets) != ref(GlyphIDArray)
+//@   loop 1
+//@     invariant len(StartCode) == i + 1 && len(EndCode) == i + 1 && len(IDDelta) == i + 1 && len(IDRangeOffsets) == i + 1 && len(segments) <= 65536 && 0 <= i && i < len(segments)
+//@     invariant (isnil(StartCode) || fresh(StartCode)) && (isnil(EndCode) || fresh(EndCode)) && (isnil(IDDelta) || fresh(IDDelta)) && (isnil(IDRangeOffsets) || fresh(IDRangeOffsets)) && (isnil(GlyphIDArray) || fresh(GlyphIDArray))
+//@     invariant forall k int :: 0 <= k && k < len(segments) ==> segments[k] != nil
+//@     invariant s.first <= c && (c <= s.last + 1 || c == s.first) && s == segments[i]
+//@     invariant IDRangeOffsets[i]/2 - (len(segments) - i) + (c - s.first) == len(GlyphIDArray)
+//@     invariant isnil(GlyphIDArray) || ref(IDRangeOffsets) != ref(GlyphIDArray)
+//@     decreases s.last + 1 - c
+//@   loop 2
+//@     invariant buf != nil && fresh(buf)
